@@ -7,8 +7,19 @@ import random
 import sys
 import time
 import traceback
+from pathlib import Path
 
 from . import common as C
+
+
+OUT = Path(os.environ.get("PBVERIF_OUT") or C.VERIF)
+
+
+def _rel(p):
+    try:
+        return p.relative_to(C.VERIF)
+    except ValueError:
+        return p
 
 
 def _canon(x):
@@ -60,7 +71,7 @@ def run(prop_id, tier, replay=None):
     if proof["build_ok"]:
         reqs, spans = [], []
         for c in cases:
-            r = P.model_requests(c)
+            r = P.model_requests(c, code_outs[len(spans)])
             spans.append((len(reqs), len(reqs) + len(r)))
             reqs += r
         try:
@@ -102,6 +113,11 @@ def run(prop_id, tier, replay=None):
             nontrivial.add(json.dumps(k, sort_keys=True, default=str))
         for tag in P.tags(c, code_outs[i]):
             hist[tag] = hist.get(tag, 0) + 1
+
+    if os.environ.get("PBVERIF_DEBUG"):
+        C.write_json(C.WORK / f"debug-{prop_id}.json", dict(
+            mismatches=[dict(case=cases[i], code=code_outs[i], model=model_outs[i]) for i in mismatches[:200]],
+            failures=[dict(case=cases[i], code=code_outs[i], why=w) for i, w in failures[:200]]))
 
     broken = []
     if not proof["ok"]:
@@ -150,21 +166,21 @@ def run(prop_id, tier, replay=None):
             why = P.spec_violation(case, _canon(P.run_code(case))) or why
         except Exception:
             case = cases[i]
-        replay_path = C.VERIF / "replays" / f"{prop_id}-{C.digest(case)}.json"
+        replay_path = OUT / "replays" / f"{prop_id}-{C.digest(case)}.json"
         C.write_json(replay_path, dict(
             property=prop_id, kind="counterexample", case=case, code_out=_canon(P.run_code(case)),
             violation=why, broken=broken, seed=seed, tier=tier,
-            how=f"bin/check {prop_id} --replay {replay_path.relative_to(C.VERIF)}"))
-        lines.append(f"VIOLATION property={prop_id} replay={replay_path.relative_to(C.VERIF)}")
+            how=f"bin/check {prop_id} --replay {_rel(replay_path)}"))
+        lines.append(f"VIOLATION property={prop_id} replay={_rel(replay_path)}")
         rc = 1
     elif broken:
-        replay_path = C.VERIF / "replays" / f"{prop_id}-unproved-{C.digest(broken)}.json"
+        replay_path = OUT / "replays" / f"{prop_id}-unproved-{C.digest(broken)}.json"
         C.write_json(replay_path, dict(
             property=prop_id, kind="no-longer-shown", case=None, broken=broken,
             first_disagreement=(dict(case=cases[mismatches[0]], code=code_outs[mismatches[0]],
                                      model=model_outs[mismatches[0]]) if mismatches else None),
             build_log_tail=proof["log"][-2500:], searched=searched, seed=seed, tier=tier))
-        lines.append(f"VIOLATION property={prop_id} replay={replay_path.relative_to(C.VERIF)} "
+        lines.append(f"VIOLATION property={prop_id} replay={_rel(replay_path)} "
                      f"no-failing-input-found")
         rc = 1
 
@@ -198,7 +214,7 @@ def run(prop_id, tier, replay=None):
         ),
         assumptions=P.assumptions, wall_s=round(wall, 2), violations=len(failures),
     )
-    C.write_json(C.VERIF / "evidence" / f"{prop_id}.json", ev)
+    C.write_json(OUT / "evidence" / f"{prop_id}.json", ev)
     for ln in lines:
         print(ln)
     print(f"{prop_id} {tier}: theorems {proof['discharged']}/{proof['obligations']}, "
